@@ -373,6 +373,9 @@ def run(ctx):
     X = Expander(P, ppt)
     for r in returns(ppt):
         t = X(ppt.nodes[r]["val"])
-        ctx.check("param:ctx.getActionContext().prekill_hook_timeout_ts" in t and "std::chrono::steady_clock::now()" in t and ">" in t,
+        D_ = r"\*?param:ctx\.getActionContext\(\)\.prekill_hook_timeout_ts(?:\.value\(\))?"
+        NOW_ = r"std::chrono::steady_clock::now\(\)"
+        past = re.search(r"\(%s > %s\)" % (NOW_, D_), t) is not None or re.search(r"\(%s < %s\)" % (D_, NOW_), t) is not None
+        ctx.check("param:ctx.getActionContext().prekill_hook_timeout_ts" in t and past,
                   "timeout-from-action-context", "value-shape", ppt.loc(r),
                   "window end is the action context's deadline, compared on the steady clock", "timeout test is " + t[:120])
